@@ -32,7 +32,7 @@ import json, os, re, subprocess
 import vcommon as V
 
 META = dict(
-    text="Lean 4. Spec/Balanced.lean defines a stack/scope typing of zygomys bytecode over the REAL instruction set (one constructor per Go type implementing Instruction; coverage of the regenerated type list is proved by decide): per pc, scopes opened since entry, operands in the function's own area and a stack of open marker / stack-mark regions with exact / at-least / junk counts; a transfer function, an approximation order, a work-list inference and a LOCAL verifier of annotations (check = verify . infer). Props/C04.lean proves checker_sound: for any annotation the verifier accepts, every execution of the function in a stack-effect machine (each instruction pops/pushes what its Execute method does; calls obey 'pop the arguments, push one result, leave scopes alone') never touches the caller's part of the data stack, never pops a caller's scope, and at ret has exactly one value on top of the caller's stack, the caller's scope and address depth (induction over execution steps; unbounded code size, path length, loop iterations); tail_call_reenters_at_entry_depth (back at pc 0 = entry depths). gen_balanced (+ gen_fragment, gen_balanced_loops, gen_balanced_functions, generated_function_balanced): by ONE mutual induction over the eight compile functions of Model/Gen.lean, for every program of ALL core forms - literals, symbols, arrays, calls, begin, def, set, cond, and/or, let, letseq, newScope, selector assignment, for (labelled or not), break/continue (labelled or not) in every position the generator accepts and out of any number of nested scopes, fn/defn at any nesting depth - the top-level code is accepted by the verifier AND every function template allocated on the way (prologue, formals fixed or variadic, body compiled with the tail flag on, epilogue, self tail calls = TailGuard, operands inline, PrepareCall, RemoveScope x (scopes+1), Goto 0, ordinary call behind the jump) is a verified function; the invariant GInv relates Ctx.scopes / the compile-time loop stack / the loop table to the abstract state (scopes k, frames, base). Side conditions: non-empty let/fn/defn bodies (the real builders refuse an empty function body), no call headed by the empty name or a generated name __anon<n>, loop-stack ids exist; without them the full statement GenBalanced is refuted for the model (genBalanced_needs_nonempty_bodies). Proved is the existence of an annotation the verifier accepts (the hypothesis of checker_sound), not that the work-list inference finds it. gen_balanced_partial / gen_balanced_operand (loop-free core, every loop table; helper function Generate(e)+ret) are kept. tail_site_depths (Proofs/TailSite.lean): in any verified function a state at a tail sequence has k+1 scopes above the caller's and, behind PrepareCall, exactly the formals' worth of operands (used by C09: bodyBalanced_of_matched). exec_refines_partial (Proofs/VMRefine.lean): the VM model refines the stack-effect machine instruction by instruction (every instruction but callArr/callExpr/ret; envToStack, tailGuard, prepareCall, brk, cont with a side condition each), tying the effect table to the VM model; the full statement ExecRefines (calls by contract: induction over nested runs) is stated. calling_contract (Proofs/RunCall2.lean, RunPrim.lean): the refinement across nested runs, by induction on the fuel over all 13 functions of the VM's mutual block, for normal returns: from a state with the table invariant WF (every function object verified, every stored value free of stack-marks with valid function ids; kept because compiling at run time only adds verified functions) every instruction keeps the stack of activations described by the checker's invariant (call = push, ret = pop at the caller's depths with one value), runLoop ends with one value on the base stacks, nested evaluations (evalCallExpr, builtins incl. apply/map/force, applyFn, forceLazy) leave data/scope/address/set-aside stacks exactly as they were, callUser pops its operands and pushes one value. run_at_rest_of_invariant / run_at_rest_reachable (Proofs/RunMain.lean): the top-level text is the bottom activation of the outermost loop (no return address, ends by running off its end); its annotation is the generator's balanced fragment PLACED behind the old code of mainfunc (the fragment calculus is position-generic, nothing is shifted; the only fact needed about old code is that loop ids are unique); hence for every state with the table invariant WF, the mainfunc facts MainOK and at rest - in particular every state reachable from the fresh interpreter by any number of texts of the grammar that returned values (ServedState) - a text of the grammar that returns a value leaves the interpreter at rest (no operand, only the global scope, no return address, no loop record, pc at the end) with the invariant restored, for every fuel. RunAtRest over EVERY state at rest (whatever its function table holds) is not provable without the table invariant and stays a def; states after erroneous texts are not covered (error outcomes of the calling contract are not proved). eval_empty_nil is proved for every state at rest. Error path (Props/C04Err.lean, Proofs/RunErr.lean), stage 1: one non-call instruction (24 of the 26 kinds) fetched by a Running loop leaves, whatever its outcome, the scope stack / return addresses / data the current run was started on underneath and the set-aside stacks untouched (the room is read off the verifier's annotation), and when it fails the tables as found; an erroring text of the grammar from a served state has a fault state that satisfies the run-time invariant, and if the failing instruction is not a call instruction the interpreter is served again, at rest, the three stacks exactly those of entry (erroring_text_nonCall_partial); for failing call instructions the same follows from CallFaultOK (the error-path contract of the nested evaluators: stated, not proved), so ErrLeavesServed is a def. OneAtATime (equal values together vs one at a time) is stated, not proved: the two runs allocate function ids in different orders, it needs a simulation up to renaming; one_at_a_time_partial covers the generator's half. The property on the real code is decided per run: the verified checker is run on the structured listing of every function the real generator compiles for generated programs of the full surface language and for the repo's tests/*.zy (translation validation, ~65 000 functions quick / ~2.5 million thorough), and a depth oracle watches the four stacks, EvalString(\"\"), together-vs-one-at-a-time, N-fold histories and the calling contract of every call on the real interpreter. Re-entrancy: compiled code (instruction structs, Loop records, SexpFunction templates) is shared by all activations of a function; Generated/CodeWrites.lean lists, from the source, every field of such an object that is written outside the function constructing it and every package-level variable holding or keyed by such objects, and code_writes_exact / code_globals_exact prove the lists equal to committed ones in which each entry says why its value does not depend on the activation (the cached FindLoop position, the lexical parent used by symbol lookup, setters used at construction, the append-only main code). For any function the verifier accepts: same_pc_same_depth (inside one activation the scope depth is entry depth + a compile-time constant of the pc), break_lands_at_activation_depth (break/continue pop exactly the static count, which is the difference of the constants, and land at THIS activation's depth; the difference to any visit of a LoopStartInstr is a constant), call_contract_of_verified_callee (the one-step call of the machine is what a run of a verified callee does at any depth - so also for the function calling itself from its own loop body), nested_activation_depths (two activations open at once differ, at the same pc, by the depth of the call site: one depth recorded per loop cannot serve both), exec_break_continue_static (VM model: exec of break/continue drops the static number of scopes and writes no compiled object; LoopStart only advances the pc). stream `reent` adds re-entrancy of every scoped construct: functions whose loop bodies (plain, labelled, nested, infix, range, macro-made) call the function again (directly, mutually, through closures, map, apply, macros, lazy thunks, eval) before / after / inside the scopes of a break or continue (labelled or not, out of 0-3 let/letseq/newScope/package scopes, six syntactic positions), recursion depth 0-4, tree walks, tail calls after non-tail self calls, macros expanding to loops (incl. expansion-time recursion), lazy thunks forced inside loops, packages re-entered, grammar-directed self-recursive functions, N-fold.",
+    text="Lean 4. Spec/Balanced.lean defines a stack/scope typing of zygomys bytecode over the REAL instruction set (one constructor per Go type implementing Instruction; coverage of the regenerated type list is proved by decide): per pc, scopes opened since entry, operands in the function's own area and a stack of open marker / stack-mark regions with exact / at-least / junk counts; a transfer function, an approximation order, a work-list inference and a LOCAL verifier of annotations (check = verify . infer). Props/C04.lean proves checker_sound: for any annotation the verifier accepts, every execution of the function in a stack-effect machine (each instruction pops/pushes what its Execute method does; calls obey 'pop the arguments, push one result, leave scopes alone') never touches the caller's part of the data stack, never pops a caller's scope, and at ret has exactly one value on top of the caller's stack, the caller's scope and address depth (induction over execution steps; unbounded code size, path length, loop iterations); tail_call_reenters_at_entry_depth (back at pc 0 = entry depths). gen_balanced (+ gen_fragment, gen_balanced_loops, gen_balanced_functions, generated_function_balanced): by ONE mutual induction over the eight compile functions of Model/Gen.lean, for every program of ALL core forms - literals, symbols, arrays, calls, begin, def, set, cond, and/or, let, letseq, newScope, selector assignment, for (labelled or not), break/continue (labelled or not) in every position the generator accepts and out of any number of nested scopes, fn/defn at any nesting depth - the top-level code is accepted by the verifier AND every function template allocated on the way (prologue, formals fixed or variadic, body compiled with the tail flag on, epilogue, self tail calls = TailGuard, operands inline, PrepareCall, RemoveScope x (scopes+1), Goto 0, ordinary call behind the jump) is a verified function; the invariant GInv relates Ctx.scopes / the compile-time loop stack / the loop table to the abstract state (scopes k, frames, base). Side conditions: non-empty let/fn/defn bodies (the real builders refuse an empty function body), no call headed by the empty name or a generated name __anon<n>, loop-stack ids exist; without them the full statement GenBalanced is refuted for the model (genBalanced_needs_nonempty_bodies). Proved is the existence of an annotation the verifier accepts (the hypothesis of checker_sound), not that the work-list inference finds it. gen_balanced_partial / gen_balanced_operand (loop-free core, every loop table; helper function Generate(e)+ret) are kept. tail_site_depths (Proofs/TailSite.lean): in any verified function a state at a tail sequence has k+1 scopes above the caller's and, behind PrepareCall, exactly the formals' worth of operands (used by C09: bodyBalanced_of_matched). exec_refines_partial (Proofs/VMRefine.lean): the VM model refines the stack-effect machine instruction by instruction (every instruction but callArr/callExpr/ret; envToStack, tailGuard, prepareCall, brk, cont with a side condition each), tying the effect table to the VM model; the full statement ExecRefines (calls by contract: induction over nested runs) is stated. calling_contract (Proofs/RunCall2.lean, RunPrim.lean): the refinement across nested runs, by induction on the fuel over all 13 functions of the VM's mutual block, for normal returns: from a state with the table invariant WF (every function object verified, every stored value free of stack-marks with valid function ids; kept because compiling at run time only adds verified functions) every instruction keeps the stack of activations described by the checker's invariant (call = push, ret = pop at the caller's depths with one value), runLoop ends with one value on the base stacks, nested evaluations (evalCallExpr, builtins incl. apply/map/force, applyFn, forceLazy) leave data/scope/address/set-aside stacks exactly as they were, callUser pops its operands and pushes one value. run_at_rest_of_invariant / run_at_rest_reachable (Proofs/RunMain.lean): the top-level text is the bottom activation of the outermost loop (no return address, ends by running off its end); its annotation is the generator's balanced fragment PLACED behind the old code of mainfunc (the fragment calculus is position-generic, nothing is shifted; the only fact needed about old code is that loop ids are unique); hence for every state with the table invariant WF, the mainfunc facts MainOK and at rest - in particular every state reachable from the fresh interpreter by any number of texts of the grammar that returned values (ServedState) - a text of the grammar that returns a value leaves the interpreter at rest (no operand, only the global scope, no return address, no loop record, pc at the end) with the invariant restored, for every fuel. RunAtRest over EVERY state at rest (whatever its function table holds) is not provable without the table invariant and stays a def; states after erroneous texts are not covered (error outcomes of the calling contract are not proved). eval_empty_nil is proved for every state at rest. Error path (Props/C04Err.lean, Proofs/RunErr.lean), stage 1: one non-call instruction (24 of the 26 kinds) fetched by a Running loop leaves, whatever its outcome, the scope stack / return addresses / data the current run was started on underneath and the set-aside stacks untouched (the room is read off the verifier's annotation), and when it fails the tables as found; an erroring text of the grammar from a served state has a fault state that satisfies the run-time invariant, and if the failing instruction is not a call instruction the interpreter is served again, at rest, the three stacks exactly those of entry (erroring_text_nonCall_partial); stage 2 (Proofs/RunErr2.lean): the error-path contract of all 13 functions of the mutual block for the outcome err (err_contract: tables well-formed and only grown, scope stack and set-aside stacks exactly those of entry; every evaluator's restore after a failed nested Run is exact on them); no host panic (Proofs/RunSafe.lean, no_panic_contract): from a state without nil cells and with a scope to bind in, no function of the mutual block ends in a host panic and a normal return leaves no nil cell (nil cells only come from restoreControlState growing a stack; on normal returns every restore is exact, after an error nothing runs any more); stage 3 (Proofs/RunErr3.lean), no hypothesis: err_leaves_served (a text of the grammar that ends in an error leaves the interpreter served, at rest, the three stacks and the set-aside stacks exactly those of entry), no_host_panic (no text of the grammar ends in a host panic), the served states closed under value-returning and erroring texts (ServedStateE, run_at_rest_after_errors). OneAtATime (equal values together vs one at a time) is stated, not proved: the two runs allocate function ids in different orders, it needs a simulation up to renaming; one_at_a_time_partial covers the generator's half. The property on the real code is decided per run: the verified checker is run on the structured listing of every function the real generator compiles for generated programs of the full surface language and for the repo's tests/*.zy (translation validation, ~65 000 functions quick / ~2.5 million thorough), and a depth oracle watches the four stacks, EvalString(\"\"), together-vs-one-at-a-time, N-fold histories and the calling contract of every call on the real interpreter. Re-entrancy: compiled code (instruction structs, Loop records, SexpFunction templates) is shared by all activations of a function; Generated/CodeWrites.lean lists, from the source, every field of such an object that is written outside the function constructing it and every package-level variable holding or keyed by such objects, and code_writes_exact / code_globals_exact prove the lists equal to committed ones in which each entry says why its value does not depend on the activation (the cached FindLoop position, the lexical parent used by symbol lookup, setters used at construction, the append-only main code). For any function the verifier accepts: same_pc_same_depth (inside one activation the scope depth is entry depth + a compile-time constant of the pc), break_lands_at_activation_depth (break/continue pop exactly the static count, which is the difference of the constants, and land at THIS activation's depth; the difference to any visit of a LoopStartInstr is a constant), call_contract_of_verified_callee (the one-step call of the machine is what a run of a verified callee does at any depth - so also for the function calling itself from its own loop body), nested_activation_depths (two activations open at once differ, at the same pc, by the depth of the call site: one depth recorded per loop cannot serve both), exec_break_continue_static (VM model: exec of break/continue drops the static number of scopes and writes no compiled object; LoopStart only advances the pc). stream `reent` adds re-entrancy of every scoped construct: functions whose loop bodies (plain, labelled, nested, infix, range, macro-made) call the function again (directly, mutually, through closures, map, apply, macros, lazy thunks, eval) before / after / inside the scopes of a break or continue (labelled or not, out of 0-3 let/letseq/newScope/package scopes, six syntactic positions), recursion depth 0-4, tree walks, tail calls after non-tail self calls, macros expanding to loops (incl. expansion-time recursion), lazy thunks forced inside loops, packages re-entered, grammar-directed self-recursive functions, N-fold.",
     note="Trusted: Lean kernel; axioms propext/Classical.choice/Quot.sound. The stack-effect table `eff` (what each Execute pops/pushes) is hand-written from zygo/vm.go and tied by the `bal`+`rest` runs and by the pre/post-hook contract monitor, not extracted. The overlay lister (harness/overlay/listing.go) re-derives the helper functions of EvalCallExpression/Force with the same generator calls the VM makes; code compiled by (eval x) from run-time data is not listed (EvalFunction truncates the data stack itself). PrepareCall is modelled for the current function (a parameter that shadows the function's own name is C02's known finding). Growth of mainfunc.fun (LoadExpressions appends code for every text) is by design and not counted as growth.",
     technique="Lean 4 proof (abstract interpretation soundness + induction over the expression grammar) + per-instance translation validation of real listings by the verified checker + depth-oracle correspondence on the real interpreter",
     design_ref="DESIGN.md §7 C04, §9, §13",
